@@ -189,16 +189,11 @@ Section Facts.
   Qed.
 
   (** * VARIABLE write sets: the replica stores re-ticked records *)
-  (** the replica's ticks depend on the master's only through the nanosecond part *)
-  Lemma retick_forgets_seconds epoch ipd idx ipd_b r1 r2 :
-    firstn (length r1 - 4) r1 = firstn (length r2 - 4) r2 ->
-    snd (time_from_ticks epoch ipd (rec_ticks r1)) = snd (time_from_ticks epoch ipd (rec_ticks r2)) ->
-    retick_rec epoch ipd idx ipd_b r1 = retick_rec epoch ipd idx ipd_b r2.
-  Proof. intros H1 H2. unfold Repl.retick_rec. rewrite H1, H2. reflexivity. Qed.
+  Notation rec_time := (rec_time time_from_ticks).
 
-  Definition nanos_in_interval (w : ws) : Prop :=
-    let epoch := sec_of (IndexToTime tz_utc (ws_idx w) (ws_tf w) (ws_year w)) in
-    Forall (fun rec => 0 <= wrap I32 (snd (time_from_ticks epoch (ipd_of (ws_tf w)) (rec_ticks rec))) < ws_tf w)
+  Definition time_in_interval (w : ws) : Prop :=
+    let t0 := IndexToTime tz_utc (ws_idx w) (ws_tf w) (ws_year w) in
+    Forall (fun rec => 0 <= rec_time (sec_of t0) (ipd_of (ws_tf w)) rec - t0 < ws_tf w)
            (chunks (length (ws_payload w)) (Z.to_nat (ws_vrl w)) (ws_payload w)).
 
   Definition var_ok (st : store) (w : ws) : Prop :=
@@ -206,7 +201,7 @@ Section Facts.
     /\ has_name nanos_name (ws_shapes w) = false
     /\ ws_vrl w = rowsize (ws_shapes w) - 8 + 4 /\ 4 <= ws_vrl w
     /\ Z.of_nat (length (ws_payload w)) mod ws_vrl w = 0 /\ ws_vrl w <= Z.of_nat (length (ws_payload w))
-    /\ derived_idx w /\ nanos_in_interval w /\ bucket_fits st w.
+    /\ derived_idx w /\ time_in_interval w /\ bucket_fits st w.
 
   Lemma remove_nanos_app sh : has_name nanos_name sh = false -> remove_name nanos_name (sh ++ [nanos_shape]) = sh.
   Proof.
@@ -271,8 +266,13 @@ Section Facts.
       unfold Repl.write_csm. cbn [cs_rows cs_bucket cs_shapes cs_tf]. unfold var_rows, z. fold t0. fold epoch. fold cks.
       rewrite (remove_nanos_app _ Hnn).
       set (mk := fun rec : list byte =>
-                   mkrow epoch (firstn (length rec - 4) rec)
-                         (Some (wrap I32 (snd (time_from_ticks epoch (ipd_of (ws_tf w)) (rec_ticks rec)))))).
+                   let '(s, ns) := time_from_ticks epoch (ipd_of (ws_tf w)) (rec_ticks rec) in
+                   mkrow (wrap I64 s) (firstn (length rec - 4) rec) (Some (wrap I32 ns))).
+      assert (Hmk : forall rec, row_time (mk rec) = rec_time epoch (ipd_of (ws_tf w)) rec
+                                /\ row_bytes false (mk rec) = firstn (length rec - 4) rec).
+      { intros rec. unfold mk, Repl.rec_time, row_time, row_bytes.
+        destruct (time_from_ticks epoch (ipd_of (ws_tf w)) (rec_ticks rec)) as [s0 ns0].
+        cbn [r_epoch r_nanos r_data]. rewrite app_nil_r. split; reflexivity. }
       assert (Hrows : map mk cks <> []) by (destruct cks; [contradiction | discriminate]).
       assert (Tail : forall st1, st1 = ensure_bucket st (ws_bucket w) RT_VARIABLE (ws_tf w) (ws_shapes w) ->
         match find_bucket st1 (ws_bucket w) with
@@ -300,14 +300,14 @@ Section Facts.
         rewrite combine_map, map_map.
         rewrite (write_records_same (utils_Day / ws_tf w) (ws_tf w) (ws_idx w) (ws_year w)).
         - cbn [fold_left wc_year wc_idx wc_data]. f_equal. f_equal. f_equal. rewrite map_map.
-          apply map_ext. intros rec. unfold Repl.retick_rec, mk, row_time, row_bytes. cbn [fst snd r_epoch r_data r_nanos negb].
-          rewrite app_nil_r. reflexivity.
+          apply map_ext. intros rec. cbn [fst snd negb]. destruct (Hmk rec) as [Ht Hb]. rewrite Ht, Hb.
+          unfold Repl.retick_rec. reflexivity.
         - destruct cks; [contradiction | discriminate].
         - apply Forall_forall. intros td Hin. apply in_map_iff in Hin as (rec & <- & Hin).
-          unfold nanos_in_interval in Hns. fold t0 in Hns. fold epoch in Hns. fold cks in Hns.
-          rewrite Forall_forall in Hns. specialize (Hns rec Hin).
-          unfold mk, row_time. cbn [fst r_epoch r_nanos].
-          replace (epoch * NS) with t0 by (unfold epoch; symmetry; exact Hsec).
+          unfold time_in_interval in Hns. fold t0 in Hns. fold epoch in Hns. fold cks in Hns.
+          rewrite Forall_forall in Hns. specialize (Hns rec Hin). cbn [fst].
+          destruct (Hmk rec) as [Ht _]. rewrite Ht.
+          replace (rec_time epoch (ipd_of (ws_tf w)) rec) with (t0 + (rec_time epoch (ipd_of (ws_tf w)) rec - t0)) by lia.
           destruct (Hint _ Hns) as [Hy Hi]. split; assumption. }
       destruct (find_bucket st (ws_bucket w)) as [b0|] eqn:Efb.
       + assert (Ee : ensure_bucket st (ws_bucket w) RT_VARIABLE (ws_tf w) (ws_shapes w) = st)
@@ -390,20 +390,20 @@ Section Facts.
     split; [assumption|]. split; [apply idx_okb_spec; assumption | apply bucket_fitsb_spec; assumption].
   Qed.
 
-  Lemma nanos_okb_spec w : nanos_okb time_from_ticks w = true -> nanos_in_interval w.
+  Lemma time_okb_spec w : time_okb time_from_ticks w = true -> time_in_interval w.
   Proof.
-    unfold nanos_okb, nanos_in_interval, z. intros H. rewrite forallb_forall in H. apply Forall_forall.
+    unfold time_okb, time_in_interval, z. intros H. rewrite forallb_forall in H. apply Forall_forall.
     intros rec Hin. specialize (H rec Hin). cbn zeta in H. apply andb_prop in H as [H1 H2].
     rewrite Z.leb_le in H1. rewrite Z.ltb_lt in H2. lia.
   Qed.
 
   Lemma var_okb_spec st w : var_okb time_from_ticks st w = true -> var_ok st w.
   Proof.
-    unfold var_okb, var_ok. intros H. repeat (apply andb_prop in H as [H ?]).
+    unfold var_okb, var_wfb, var_ok. intros H. apply andb_prop in H as [H Ht]. repeat (apply andb_prop in H as [H ?]).
     rewrite !Z.eqb_eq in *. rewrite !Z.leb_le in *.
     split; [assumption|]. split; [apply tf_okb_spec; assumption|]. split; [apply negb_true_iff; assumption|].
     split; [assumption|]. split; [assumption|]. split; [assumption|]. split; [assumption|].
-    split; [apply idx_okb_spec; assumption|]. split; [apply nanos_okb_spec; assumption | apply bucket_fitsb_spec; assumption].
+    split; [apply idx_okb_spec; assumption|]. split; [apply time_okb_spec; assumption | apply bucket_fitsb_spec; assumption].
   Qed.
 
   Lemma tg_okb_spec tg : forall st, tg_okb get_ticks time_from_ticks st tg = true -> tg_ok st tg.
